@@ -643,9 +643,85 @@ class OwnCacheClasses(Suite):
         return repr(case)
 
 
+class PathSpellings(Suite):
+    """two callers reach one cache directory under different spellings of its path (the real path and a symlink to it,
+    an absolute and a relative path, a path with `..`), both force the same key at overlapping times (real threads): they
+    exclude each other like callers that spell the path alike - never both inside the computation, no error, and the
+    entry afterwards is one of the two values, complete.  Runtime check only."""
+    name = 'cache_path_spellings'
+    model = ''
+
+    def gen(self, rng, tier):
+        return [dict(second=s, cache=c) for s in ('symlink', 'relative', 'dotdot', 'same') for c in ('JsonCache', 'DataFrameCache')]
+
+    def run_impl(self, case):
+        import os, time
+        import pandas as pd
+        from taskchain import cache as tc
+        tmp = tempfile.mkdtemp(prefix='tcverif-spell-')
+        old = os.getcwd()
+        try:
+            real = Path(tmp) / 'cachedir'
+            real.mkdir()
+            os.chdir(tmp)
+            second = {'symlink': Path(tmp) / 'link', 'relative': Path('cachedir'), 'dotdot': Path(tmp) / 'cachedir' / '..' / 'cachedir',
+                      'same': real}[case['second']]
+            if case['second'] == 'symlink':
+                os.symlink(real, second)
+            mk = (lambda n: {'v': [n] * 2000}) if case['cache'] == 'JsonCache' else (lambda n: pd.DataFrame({'v': [n] * 2000}))
+            inside, peak, errors, lock = [0], [0], [], threading.Lock()
+
+            def computer(n):
+                def f():
+                    with lock:
+                        inside[0] += 1
+                        peak[0] = max(peak[0], inside[0])
+                    time.sleep(0.25)
+                    with lock:
+                        inside[0] -= 1
+                    return mk(n)
+                return f
+
+            def caller(path, n):
+                try:
+                    getattr(tc, case['cache'])(path).get_or_compute('k', computer(n), force=True)
+                except Exception as e:
+                    errors.append(f'{type(e).__name__}: {e}'[:160])
+            ts = [threading.Thread(target=caller, args=(real, 1)), threading.Thread(target=caller, args=(second, 2))]
+            ts[0].start()
+            time.sleep(0.05)
+            ts[1].start()
+            for t in ts:
+                t.join(20)
+            v = getattr(tc, case['cache'])(real).get('k')
+            end = 'NO_VALUE' if v is tc.NO_VALUE else sorted(set(v['v'])) + [len(v['v'])]
+            return dict(peak=peak[0], errors=errors, end=[int(x) for x in end] if end != 'NO_VALUE' else end,
+                        leftovers=sorted(p.name for p in real.rglob('tmp_*')))
+        finally:
+            os.chdir(old)
+            shutil.rmtree(tmp, ignore_errors=True)
+
+    def oracle(self, case, obs):
+        if 'unexpected_exception' in obs:
+            return f'unexpected exception {obs["unexpected_exception"]}: {obs["text"]}'
+        if obs['errors']:
+            return f'{case}: a forced call failed: {obs["errors"]}'
+        if obs['peak'] > 1:
+            return f'{case}: both callers were inside the computation of one key at the same time (they do not share the entry lock)'
+        if obs['end'] not in ([1, 2000], [2, 2000]):
+            return f'{case}: the entry afterwards is {obs["end"]}'
+        return None
+
+    def nontrivial(self, case, obs):
+        return True
+
+    def key(self, case):
+        return repr(case)
+
+
 class C15(Prop):
     pid = 'C15'
-    suites = [Schedules(), RealThreads(), OwnCacheClasses(), UnstorableValues()]
+    suites = [Schedules(), RealThreads(), OwnCacheClasses(), UnstorableValues(), PathSpellings()]
     known_classes = {'unlocked-load-window': window_class}
     trusted_base = ['filelock is replaced by a cooperative lock in the correspondence: mutual exclusion of the real '
                     'FileLock is trusted; processes, flock semantics and chunked reads of large files are not modelled (partial)',
